@@ -436,6 +436,12 @@ def _build(v, w):
         return bytearray(bytes.fromhex(a))
     if tag == "$mv":
         return memoryview(bytes.fromhex(a))
+    if tag == "$mvs":  # a window onto a larger read-only buffer (header + payload + trailer)
+        body = bytes.fromhex(a)
+        return memoryview(b"\x02LEN=0042;" + body + b";CRC=1f\x03")[10:10 + len(body)]
+    if tag == "$mvws":  # the same over a writable buffer
+        body = bytes.fromhex(a)
+        return memoryview(bytearray(b"\x02LEN=0042;" + body + b";CRC=1f\x03"))[10:10 + len(body)]
     if tag == "$mvw":
         return memoryview(bytearray(bytes.fromhex(a)))
     if tag == "$dec":
